@@ -8,7 +8,7 @@ import NeumannModel.Common.FramedLog
                                                 abort, complete_commit, complete_abort,
                                                 cleanup_timeouts, process_pending_aborts,
                                                 recover_from_wal, recover, get_pending_decisions,
-                                                force_resolve})
+                                                force_resolve, truncate_wal})
   Every coordinator operation is "append these WAL records in this order, then change memory".
   Import-free apart from the shared framed log; total; executable.
 
@@ -506,6 +506,7 @@ inductive Step where
   | recoverMem (now : Nat)           -- `recover()`
   | decisions                        -- `get_pending_decisions()`
   | forceResolve (id : Nat) (commitIt : Bool)
+  | truncate                         -- `truncate_wal()`: the file is replaced by an empty one
   | crash (n : Nat) (now : Nat) (cfg : Cfg)  -- file cut to its first `n` bytes, new process with `cfg`
   deriving DecidableEq, Repr
 
@@ -528,6 +529,7 @@ def step (crc : List Nat → Nat) (ser : Entry → List Nat) (de : List Nat → 
   | .recoverMem now => recoverMem c now
   | .decisions => (c, .decisions (pendingDecisions c))
   | .forceResolve id b => forceResolve c id b
+  | .truncate => ({ c with log := [] }, .ok)
   | .crash n now cfg =>
       match restartBytes crc de cfg ((fileOf crc ser c.log).take n) now with
       | some c' => (c', .ok)
